@@ -314,7 +314,7 @@ Qed.
 
 (* ---------------------------------------------------------------- whole-query witnesses *)
 Definition wq : query :=
-  {| q_counter := false; q_ntags := 3%nat; q_t := [0; 60; 120; 180]; q_step := 60; q_startx := 1; q_vs := 1; q_ve := 4 |}.
+  {| q_counter := false; q_ntags := 3%nat; q_t := [0; 60; 120; 180]; q_step := 60; q_lods := [(60, 4%nat)]; q_startx := 1; q_vs := 1; q_ve := 4 |}.
 Definition wdata : list raw :=
   [ {| r_tags := [0; 1; 1]; r_slots := [[1;1;1]; [1;1;1]; [1;1;1]; [1;1;1]] |};
     {| r_tags := [0; 2; 1]; r_slots := [[5]; [5]; []; [5]] |} ].
@@ -392,3 +392,12 @@ Definition window_sweep : bool :=
 
 Lemma window_sweep_ok : window_sweep = true.
 Proof. vm_compute. reflexivity. Qed.
+
+(* ---------------------------------------------------------------- present_over_time *)
+(* points at 0, 60, 120 s, only the first one present, range 60 s: the second point has a sample within the range
+   (definition: 1), the third one has none (definition: missing); the code answers the other way round *)
+Lemma present_over_time_refuted :
+  present_run false [0; 60; 120] [Some 5%Q; None; None] 60 None = [Some 1%Q; None; Some 1%Q] /\
+  present_run true  [0; 60; 120] [Some 5%Q; None; None] 60 None = [Some 1%Q; Some 1%Q; None].
+Proof. vm_compute. split; reflexivity. Qed.
+
